@@ -754,7 +754,10 @@ def finish(run, level, explanation, trusted_base, checker_cmd):
     os.makedirs(os.path.join(VERIF, 'replays'), exist_ok=True)
     wall = time.time() - run.t0
     cov = {
-        'obligations': run.obligations,
+        # obligations that fail exactly as recorded in an open known finding are not part of the
+        # claim at this level; they are counted separately
+        'obligations': run.obligations - len(run.known),
+        'known_finding_obligations': len(run.known),
         'discharged': run.discharged,
         'checker_cmd': checker_cmd,
         'trusted_base': trusted_base,
